@@ -6,6 +6,9 @@ def t3(v):
     return [(v >> 30) & 7, (v >> 15) & 0x7fff, v & 0x7fff]
 
 
+from props import c06
+
+
 def run(ctx):
     E.build_harness(ctx)
     cfg = "MC_TsPack_q.cfg" if ctx.quick else "MC_TsPack_t.cfg"
@@ -67,3 +70,12 @@ def run(ctx):
         E.report(ctx, sig, "trace rejected at %s (scenario %s line %d)" % (ev["ev"], r["sc"], r["line"]),
                  {"trace": r["trace"]})
     ctx.assumptions += ["independent TS/PES/PSI reader harness/proj/ts.go", "PTS/DTS carry lal's constant 63000-tick delay (spec constant Delay)"]
+    # "continuity counters advance by one per packet per PID across frames": the counters live in Rtmp2MpegtsRemuxer
+    # (audioCc / videoCc) between two Pack calls.  The RemuxOut scenarios (spec/RemuxOut.tla, acceptor clause FrameWF.ccOk,
+    # every codec combination) are replayed through the Group and judged at HTTP-TS consumers and in HLS segments.
+    own = dict(ctx.cov)
+    c06.run(ctx, c09=True)
+    for k in ("traces_validated_against_impl", "evaluations", "distinct_nontrivial"):
+        ctx.cov[k] = ctx.cov.get(k, 0) + own.get(k, 0)
+    ctx.cov["rule"] = own["rule"] + "; plus RemuxOut scenarios (simulated and directed, every codec combination) for the counters " \
+        "carried by the remuxer from frame to frame, judged per PID at HTTP-TS consumers and in HLS segments"
